@@ -121,3 +121,26 @@ Proof.
   - eapply nh_coincides_Ht; eassumption.
 Qed.
 Print Assumptions C05_hermitian_coincide_partial.
+
+(** End-to-end form of the tie for the unconditional clauses (Alg/Trunc.v, Alg/TruncTieNH.v): when
+    the executable reading accepts the implementation's tables for [nonhermitian_alg] ([check_alg],
+    evaluated by vm_compute for every k_semeq case), U_inv U = U U_inv = 1 and the gauge condition
+    hold for those tables up to total order N - as a theorem. *)
+From PV.Alg Require Import SemExec SemExecSound TruncTieNH.
+From PV.Series Require Import Exec.
+From PV.Block Require Import QLemmas QInst.
+Theorem C05_tie_conclusions :
+  forall (D k N : nat) (bl : list nat) (msk : list (list bool)) (cb : list bool) (El : list gq) (tb : bool)
+         (sols : list (string * tser gq)),
+    check_alg D k N bl msk cb El tb sols nonhermitian_alg = true ->
+    let BA := BAi D k bl msk cb in
+    let sol := asol D k sols in
+    eqN D k N (sol "U†" * sol "U") 1 /\
+    eqN D k N (sol "U" * sol "U†") 1 /\
+    eqN D k N (Sel (sol "U" - sol "U†")) 0.
+Proof. intros. eapply nh_tie_conclusions; eassumption. Qed.
+Print Assumptions C05_tie_conclusions.
+
+(** the hypothesis is satisfiable: the witness of [C05_similarity_refuted] passes [check_alg] *)
+Example C05_tie_conclusions_applies : nh_wit_check = true.
+Proof. exact (proj1 nh_witness). Qed.
